@@ -10,6 +10,7 @@ from hypothesis import strategies as st
 
 from refs import psd_ref as ref
 from vlib import util
+from vlib import defaults
 from vlib.core import Part
 
 PROPERTY = "C19"
@@ -903,4 +904,7 @@ PARTS = [
     Part("rescale", oracle_rescale, strategy=rescales, quick=(4, 1000), thorough=(16, 3500)),
     Part("resample", oracle_resample, strategy=resamples, quick=(4, 800), thorough=(16, 2800)),
     Part("fixtime", oracle_fixtime, strategy=fixtimes, quick=(4, 800), thorough=(16, 2800)),
+    # documented defaults: leaving a keyword out = passing its documented value (vlib/defaults.py)
+    Part("defaults", defaults.make_oracle("C19"), enum=defaults.make_enum(), quick=(1, None), thorough=(1, None),
+         exhaustive=True),
 ]
